@@ -154,11 +154,11 @@ PROPS = {
                 "feeding whenAll/whenAny while a third attaches to (or builds) the combinator; interleavings at the "
                 "yield points of async.h and at every lock operation; " + NONTRIVIAL,
         "probes_expected": ["shape-root", "shape-derived-value", "shape-derived-void", "shape-derived-resolved-promise", "shape-derived-pending-promise",
-                            "shape-derived-chain2", "shape-void-root", "shape-void-derived", "settle-reject", "attacher-builds-chain",
+                            "shape-derived-chain2", "shape-void-root", "shape-void-derived", "shape-void-derived-pending-promise", "inner-promise-rejected", "settle-reject", "attacher-builds-chain",
                             "combinator-all", "combinator-any", "combinator-all-range-void", "combinator-all-range-int", "combinator-with-rejection"],
         "assumptions": ["the promise derived from a continuation that returns nothing is never fulfilled by design; only at-most-once is demanded for continuations attached to it"],
-        "quick": {"batches": [("c12_settle_attach", "plain", 150000), ("c12_settle_attach", "tsan", 15000), ("c12_combinators", "plain", 60000), ("c12_combinators", "tsan", 8000), ("c12_settle_attach", "tsanat", 30000), ("c12_combinators", "tsanat", 20000)], "chunk": 2000},
-        "thorough": {"batches": [("c12_settle_attach", "plain", 1500000), ("c12_settle_attach", "tsan", 150000), ("c12_combinators", "plain", 600000), ("c12_combinators", "tsan", 80000), ("c12_settle_attach", "tsanat", 300000), ("c12_combinators", "tsanat", 200000)], "chunk": 5000},
+        "quick": {"batches": [("c12_settle_attach", "plain", 150000), ("c12_settle_attach", "tsan", 15000), ("c12_combinators", "plain", 60000), ("c12_combinators", "tsan", 8000), ("c12_settle_attach", "tsanat", 30000), ("c12_combinators", "tsanat", 20000), ("c12_settle_attach", "asan", 8000), ("c12_combinators", "asan", 4000)], "chunk": 2000},
+        "thorough": {"batches": [("c12_settle_attach", "plain", 1500000), ("c12_settle_attach", "tsan", 150000), ("c12_combinators", "plain", 600000), ("c12_combinators", "tsan", 80000), ("c12_settle_attach", "tsanat", 300000), ("c12_combinators", "tsanat", 200000), ("c12_settle_attach", "asan", 80000), ("c12_combinators", "asan", 40000)], "chunk": 5000},
     },
     "C13": {
         "rule": "plans (1..4 producers x 1..5 pushes, start delays, gaps, prefill, pollable or plain queue) and schedules "
